@@ -59,25 +59,40 @@ def sha(paths):
 
 def make_image(rng, kind):
     import akai_writer as AW
+    if kind == "akai-crosskind":
+        # the same raw name carried by a FILE in one partition and by a DIRECTORY in another (names whose export form
+        # depends on the kind: a directory may not end in '-' or '.'), so that anything remembered per raw name shows
+        mk = lambda n, i: AW.SampleFile(name=n, pcm=struct.pack("<%dH" % (10 + i), *range(10 + i)))
+        nm = rng.choice(["KICK-", "X..", "A-"])
+        pa = AW.Partition([AW.Volume("DRUMS", [mk(nm, 0), mk("SNARE", 1)])], size_sectors=40)
+        pb = AW.Partition([AW.Volume(nm, [mk("SNARE", 2), mk(nm, 3)]), AW.Volume("OTHER", [mk("HAT", 4)])], size_sectors=40)
+        data = AW.image_bytes([pa, pb])
+        paths = ["", "B", "B/" + nm, "A", "A/DRUMS", "A/DRUMS/" + nm, "B/" + nm + "/" + nm, "B/OTHER"]
+        return ("a.img", data, {}), paths, ["B/NOPE/X", "nope"]
     if kind == "akai":
         parts = []
         paths = ["", "A", "A:"]
-        for pi in range(rng.randint(1, 2)):
+        for pi in range(rng.choice([1, 2, 2])):
             vols = []
             for vi in range(rng.randint(1, 2)):
-                names = rng.sample(["KICK", "KICK", "PAD L", "PAD R", "BASS", "A-L", "A L", "HAT"], rng.randint(1, 5))
+                names = rng.sample(["KICK", "KICK", "PAD L", "PAD R", "BASS", "A-L", "A L", "HAT", "KICK-", "X..", "A-"], rng.randint(1, 6))
                 files = []
                 for i, n in enumerate(names):
                     nw = 20 + i
                     loops = [AW.Loop(at=rng.randint(5, nw), fine=0, coarse=rng.randint(1, 4), duration=rng.choice([0, 50, 9999])) for _ in range(rng.randint(0, 3))]
                     files.append(AW.SampleFile(name=n, pcm=struct.pack("<%dH" % nw, *range(nw)), loop_type=rng.choice([0, 1, 2, 3]), loops=loops))
                 vn = rng.choice(["VOL", "VOL", "DRUMS"])
+                if pi == 1 and vi == 0 and rng.random() < 0.6:
+                    vn = rng.choice(["KICK-", "X..", "PAD L", "A-"])      # a volume named like a sample of partition A
                 vols.append(AW.Volume(vn, files))
                 if pi == 0 and vi == 0:
                     paths += ["A/" + vn, "a/" + vn.lower()] + ["A/%s/%s" % (vn, AW.displayed_name(n)) for n in dict.fromkeys(names)]
             parts.append(AW.Partition(vols, size_sectors=40))
         data = AW.image_bytes(parts)
-        paths += ["B", "A/VOL (2)", "A/VOL/KICK (2)"]
+        paths += ["B", "A/VOL (2)", "A/VOL/KICK (2)", "B/KICK-", "B/X..", "B/nope/x"]
+        for pi_, p_ in enumerate(parts[1:], 1):
+            for v_ in p_.volumes:
+                paths.append("%s/%s" % (chr(65 + pi_), v_.name))
         bad = ["nope", "A/nope", "A/VOL/KICK/x", "//", "A\\\\VOL\\"]
         return ("a.img", data, {}), paths, bad
     if kind == "roland":
@@ -109,12 +124,13 @@ def w_image(pid, tier, seed, job):
         kinds.append("roland")
     except ImportError:
         pass
+    kinds.append("akai-crosskind")
     kind = kinds[job % len(kinds)]
     (name, data, extra), paths, bad = make_image(rng, kind)
     with R.TempImage(data, name, extra) as path:
         files = [os.path.join(os.path.dirname(path), f) for f in [name] + list(extra)]
         h0 = sha(files)
-        ops = [("ls", p) for p in paths + bad] + [("export",)]
+        ops = [("ls", p) for p in dict.fromkeys(paths + bad + ["B"])] + [("export",)]
         fresh = {}
         for op in ops:
             im = open_image(path)
@@ -122,12 +138,12 @@ def w_image(pid, tier, seed, job):
             R.close_image(im)
         # exhaustive short histories over a reduced op set + random long ones
         core = [("ls", paths[0]), ("ls", paths[min(3, len(paths) - 1)]), ("ls", bad[0]), ("export",), ("ls", paths[min(5, len(paths) - 1)]),
-                ("ls", paths[min(6, len(paths) - 1)])]
+                ("ls", paths[min(6, len(paths) - 1)]), ("ls", paths[-1]), ("ls", "B")]
         # the property speaks of ONE export per opened image (before, between or after any `ls` requests); a second
         # export on the same opened object re-reads the already consumed sample streams and is outside it (see DESIGN.md)
         hists = [list(h) for k in (2, 3) for h in itertools.product(core, repeat=k) if list(h).count(("export",)) <= 1]
         if tier == "quick":
-            hists = hists[:: 4]
+            hists = hists[:: 7]
         for _ in range(6 if tier == "quick" else 40):
             h = [rng.choice(ops[:-1]) for _ in range(rng.randint(4, 12))]
             if rng.random() < 0.7:
